@@ -17,6 +17,8 @@ PROP = "C13"
 # full statement for these classes); 0 = the code before them (fixed=false, the three classes are accepted as the
 # recorded, repaired defects)
 FIXED = int(os.environ.get("VERIF_C13_FIXED", "1"))
+# 1 once fix-F5 (re-identify the tags against the validator's schema before the tag character check) is in the tree
+FIXED5 = int(os.environ.get("VERIF_C13_FIXED_F5", "1"))   # fix: commit 02f8597 is in /repo
 LEGACY = {
     "C13-F2": {"property": "C13", "id": "C13-F2", "what": "(repaired; VERIF_C13_FIXED=0) check_tag_formatting applied "
                "the pattern ^/ to the tag text including its namespace: 'sc:/Red/' one TAG_INVALID, '/Red/' two"},
@@ -44,6 +46,11 @@ TRUSTED = [
     "regex ([ \\t/]{2,}|^/|/$) and CAMEL_CASE_EXPRESSION are hand-modelled (fmt_count, 'contains an ASCII capital'); "
     "'$' before a trailing newline is not modelled; semantic_version accepts only MAJOR.MINOR.PATCH in the model",
     "translator T4 (harness/schema_xml.py, xml.etree, independent of hed-python) for Gen/Schema_*_c13.v",
+    "Model/NamespaceHist.v: the attribute cache of a schema section (entries cached, names formatted with the current "
+    "namespace), set_schema_prefix on a loaded object, and HedTag re-identification (lookup from str(tag), extension kept "
+    "unless replaced) / HedValidator applied to a HedString built with other schemas; re-identification is tied by a "
+    "correspondence on single tags over pairs of configurations; the re-prefix history is checked on the implementation "
+    "against freshly loaded schemas (testing)",
 ]
 ASSUMPTIONS = [
     "prefixed_equiv/unprefixed_equiv are proved for ALL groups, schemas (arbitrary resolver) and annotation trees of the "
@@ -55,6 +62,9 @@ ASSUMPTIONS = [
     "tested on the implementation",
     "partnered-contains-standard and the loader outcomes on the bundled schemas are kernel-evaluated (vm_compute) on "
     "translated data; the same relation over all tags is additionally enumerated on the implementation (testing)",
+    "history theorems: (b) re-prefix/validate sequences -- proved for ALL sequences, cache-fill policies and groups; (a) an "
+    "object built under A and judged under B -- partial (hypotheses = absence of the known findings C13-F5, C13-F6), both "
+    "refuted by concrete witnesses that are replayed on the code",
     "'same library twice' is read as: the same version text twice under ONE prefix (the same library under two "
     "different prefixes is accepted by the code and by the model; both sides are tested)",
 ]
@@ -114,6 +124,80 @@ CONFIGS_SINGLE_MORE = [
     (["@testlib_2_1_0"], {"": "testlib_2_1_0"}),
     (["xx:score_1.1.0", "xx:testlib_2.1.0"], {"xx:": "!testlib_2_1_0"}),
 ]
+
+
+# history (a): (configuration A with its prefix map, configurations B the A-built objects are judged under)
+CROSS = [
+    ((["8.2.0", "sc:score_1.1.0"], {"": "8_2_0", "sc:": "score_1_1_0"}),
+     [["8.2.0", "sc:testlib_2.0.0"], ["8.2.0"], ["8.2.0", "sc:score_1.1.0"], ["8.2.0", "tl:score_1.1.0"]]),
+    ((["8.2.0"], {"": "8_2_0"}), [["testlib_2.0.0"], ["sc:8.2.0"]]),
+    ((["testlib_2.0.0"], {"": "testlib_2_0_0"}), [["8.2.0"], ["testlib_2.1.0"]]),
+    ((["8.3.0", "sc:score_2.0.0"], {"": "8_3_0", "sc:": "score_2_0_0"}), [["8.3.0"], ["sc:score_2.0.0"], ["8.2.0", "sc:score_1.1.0"]]),
+]
+CROSS_MORE = [
+    ((["8.2.0", "tl:testlib_2.1.0"], {"": "8_2_0", "tl:": "testlib_2_1_0"}),
+     [["8.2.0", "tl:testlib_3.0.0"], ["tl:testlib_2.1.0"], ["testlib_2.1.0"], ["8.3.0", "tl:score_2.0.0"]]),
+    ((["score_1.1.0", "testlib_2.0.0"], {"": "score_1_1_0"}), [["score_1.1.0"], ["testlib_2.0.0"], ["8.2.0"]]),
+]
+# history (b): (library, its standard partner); a schema with a `required` tag is generated from testlib_2.0.0
+REPREFIX = [("score_1_1_0", "8_2_0"), ("testlib_2_0_0", "8_2_0"), ("score_2_0_0", "8_3_0"), ("REQ", "8_2_0")]
+UNIQ_ANNS = [
+    [("G", [("T", "Event-context"), ("T", "Red")]), ("G", [("T", "Event-context"), ("T", "Blue")])],
+    [("G", [("T", "Event-context"), ("T", "Red")]), ("G", [("T", "Property/Organizational-property/Event-context"), ("T", "Blue")])],
+    [("G", [("T", "Event-context"), ("T", "Red")]), ("T", "Sensory-event")],
+    [("T", "Sensory-event"), ("T", "Red"), ("G", [("T", "Item"), ("T", "Blue")])],
+    [("T", "Red")],
+    [("G", [("T", "event-context"), ("T", "Red")]), ("G", [("T", "EVENT-CONTEXT"), ("G", [("T", "Blue")])]), ("T", "Sensory-event")],
+]
+
+
+def make_required_schema(cache, scratch):
+    """a copy of testlib_2.0.0 in which Sensory-event carries the `required` attribute"""
+    src = open(os.path.join(cache, fname("testlib_2_0_0")), encoding="utf8").read()
+    marker = "<name>Sensory-event</name>"
+    if src.count(marker) != 1:
+        raise ValueError("cannot build the required-tag schema: marker not unique")
+    out = src.replace(marker, marker + "<attribute><name>required</name></attribute>")
+    pth = os.path.join(scratch, "HED_reqlib_2.0.0.xml")
+    with open(pth, "w", encoding="utf8") as f:
+        f.write(out)
+    return pth
+
+
+def gen_cross_text(rng, pmap, tagsets):
+    """an annotation whose tags carry the prefixes of configuration A (mixed), valid and invalid forms"""
+    parts = []
+    for _ in range(rng.randint(1, 3)):
+        p = rng.choice(list(pmap.keys()))
+        tags = tagsets[pmap[p]]
+        x = rng.random()
+        if x < 0.55:
+            t = gen_tag(rng, tags, exotic=False)
+        elif x < 0.8:
+            n = rng.choice(tags)["long"].split("/")
+            n = n[:-1] if n[-1] == "#" else n
+            t = "/".join(n[-2:]) + rng.choice(["", "", "/Ext", "/a b"])
+        else:
+            n = rng.choice(tags)["long"].split("/")
+            t = (n[-1] if n[-1] != "#" else n[-2]) + "/" + rng.choice(["a b", "x$y", "Ext-1", "3 ms", "Red"])
+        if not unprefixed_ok([("T", t)]):
+            t = "Red"
+        parts.append(p + t)
+    if rng.random() < 0.3:
+        return "(" + ", ".join(parts) + ")"
+    return ", ".join(parts)
+
+
+def gen_reprefix_ops(rng, n):
+    ops = []
+    for _ in range(n):
+        if rng.random() < 0.45:
+            ops.append(("prefix", rng.choice(["", "sc", "sc:", "tl:", "ab", "x:", "t1:", "é:", "sc", ""])))
+        else:
+            ops.append(("validate", rng.choice(UNIQ_ANNS), rng.random() < 0.3))
+    if not any(o[0] == "validate" for o in ops):
+        ops.append(("validate", UNIQ_ANNS[0], False))
+    return ops
 
 
 def model_vlist(vlist):
@@ -368,6 +452,128 @@ def g_unmerged(task):
     return guarded(t_unmerged, task)
 
 
+def g_cross(task):
+    return guarded(t_cross, task)
+
+
+def g_reprefix(task):
+    return guarded(t_reprefix, task)
+
+
+def t_cross(task):
+    """history (a): annotation objects built under configuration A, judged by a validator for configuration B.
+    -> per text (verdict of the A-built object, verdict of a freshly built object, verdict of an A-built object whose
+    tags are re-identified against B before validation [only when the first two differ])"""
+    vlistA, vlistB, texts = task
+    from hed.models.hed_string import HedString
+    from hed.validator import HedValidator
+    A, B = w_group(vlistA), w_group(vlistB)
+    hv = HedValidator(B)
+
+    def judge(hs):
+        try:
+            return sorted((i["code"], i["severity"]) for i in hv.validate(hs, allow_placeholders=False))
+        except Exception as e:  # noqa
+            return [("EXN:" + type(e).__name__ + ":" + str(e)[:60], 0)]
+    out = []
+    for t in texts:
+        cross = judge(HedString(t, A))
+        fresh = judge(HedString(t, B))
+        pre = emul = None
+        f6able = False
+        if cross != fresh:
+            # cause of class C13-F6: a tag whose short form under A is not its own text (re-identification starts from
+            # that short form), or whose extension under A is not the one B finds (an unreplaced extension is kept)
+            for ta, tb in zip(HedString(t, A).get_all_tags(), HedString(t, B).get_all_tags()):
+                if str(ta) != ta.org_tag or (ta._extension_value and tb._extension_value != ta._extension_value):
+                    f6able = True
+            hs = HedString(t, A)
+            hs._calculate_to_canonical_forms(B)
+            pre = judge(hs)
+            if pre != fresh:
+                # What re-identification is DOCUMENTED to do in the code as it is (class C13-F6): each tag is looked up
+                # again from its current short form (the one of the entry it had under A), and an extension that the
+                # new lookup does not replace is kept.  Rebuilt here on a fresh object with B's own lookup function.
+                try:
+                    hsA, hsB = HedString(t, A), HedString(t, B)
+                    for ta, tb in zip(hsA.get_all_tags(), hsB.get_all_tags()):
+                        e, rem, _ = B.find_tag_entry(str(ta), ta.schema_namespace)
+                        tb._schema_entry = e
+                        tb.tag_terms = e.tag_terms if e else tuple()
+                        tb._extension_value = rem if (e and rem) else ta._extension_value
+                        if e is None and str(ta) != ta.org_tag:
+                            tb._tag = None
+                    emul = judge(hsB)
+                except Exception as ex:  # noqa
+                    emul = [("EMUL-EXN:" + type(ex).__name__, 0)]
+        out.append((cross, fresh, pre, emul, f6able))
+    return out
+
+
+def t_reid(task):
+    """re-identification of single tag objects: HedTag(t, A) then _calculate_to_canonical_forms(B)"""
+    vlistA, vlistB, texts = task
+    from hed.models.hed_tag import HedTag
+    A, B = w_group(vlistA), w_group(vlistB)
+    out = []
+    for t in texts:
+        try:
+            tag = HedTag(t, A)
+            before = str(tag)
+            iss = tag._calculate_to_canonical_forms(B)
+            e = tag._schema_entry
+            out.append([e.name if e else None, tag._extension_value, sorted(i["code"] for i in iss), before])
+        except Exception as ex:  # noqa
+            out.append({"exn": type(ex).__name__ + ":" + str(ex)[:80]})
+    return out
+
+
+def g_reid(task):
+    return guarded(t_reid, task)
+
+
+def t_reprefix(task):
+    """history (b): ONE library schema object; operations ("prefix", p) = set_schema_prefix(p) and ("validate", tree) =
+    validate the annotation written with the current prefix (the library alone when unprefixed or `alone`, otherwise in a
+    HedSchemaGroup next to its standard schema).  Each validation is compared with a freshly loaded schema that was
+    given the current prefix at load time."""
+    path, stdkey, ops = task
+    from hed.schema import load_schema
+    from hed.schema.hed_schema_group import HedSchemaGroup
+    from hed.errors.exceptions import HedFileError
+    from hed.models.hed_string import HedString
+    from hed.validator import HedValidator
+    S = load_schema(path)
+    std = w_single(stdkey)
+    fresh = {}
+    out = []
+    for op in ops:
+        if op[0] == "prefix":
+            try:
+                S.set_schema_prefix(op[1])
+                out.append(("prefix", op[1], S._namespace))
+            except HedFileError:
+                out.append(("prefix", op[1], "refused:" + S._namespace))
+            continue
+        ns = S._namespace
+        alone = op[2] or not ns
+        if ns not in fresh:
+            fresh[ns] = load_schema(path, schema_namespace=ns) if ns else load_schema(path)
+        F = fresh[ns]
+        cfg_h = S if alone else HedSchemaGroup([std, S])
+        cfg_f = F if alone else HedSchemaGroup([std, F])
+        text = render(op[1], ns)
+
+        def judge(cfg):
+            try:
+                return sorted((i["code"], i["severity"])
+                              for i in HedValidator(cfg).validate(HedString(text, cfg), allow_placeholders=False))
+            except Exception as e:  # noqa
+                return [("EXN:" + type(e).__name__ + ":" + str(e)[:60], 0)]
+        out.append(("validate", ns, text, judge(cfg_h), judge(cfg_f)))
+    return out
+
+
 def t_partner(task):
     """clause 4 on the implementation, all tags: (std key, lib key, std tags from the XML, library tags from the XML)"""
     bkey, lkey, std_tags, lib_tags = task
@@ -560,6 +766,10 @@ def classify(p, a, g, s, f, gf, sf):
     return None
 
 
+def ops_index(outs, k):
+    return k          # one output per operation
+
+
 def oracle_equiv(res, vlist, p, key, a, obs):
     g, s, f, gf, sf = obs
     if g == s:
@@ -738,6 +948,28 @@ def _run(rng, thorough, wide, res, model_ok, scratch):
         lib_tags = [(t["long"], t["attrs"]) for t in allsch[l]["tags"] if "inLibrary" in t["attrs"]]
         partner_tasks.append((b, l, std_tags, lib_tags))
 
+    # histories: (a) objects built under A judged under B; (b) one schema object re-prefixed between validations
+    cross_tasks = []
+    for (vlA, pmA), Bs in CROSS + (CROSS_MORE if (thorough or wide) else []):
+        texts = ["sc:Recording/a b, sc:Truck", "sc:Chewing-artifact", "Instrument-sound/Oboe-sound", "Oboe-sound/x"] + \
+                [gen_cross_text(rng, pmA, tagsets) for _ in range(1500 if thorough else 150)]
+        for vlB in Bs:
+            cross_tasks.append((vlA, vlB, texts))
+    reid_tasks = []
+    for vlA, vlB, texts in cross_tasks:
+        tt = sorted({x.strip() for t in texts for x in re.split(r"[(),]", t) if x.strip() and fold_ok(x) and x.isascii()})
+        reid_tasks.append((vlA, vlB, tt[:400] if not thorough else tt[:3000]))
+    req_path = make_required_schema(cache, scratch)
+    rep_tasks = []
+    for lk, sk in REPREFIX:
+        pth = req_path if lk == "REQ" else os.path.join(cache, fname(lk))
+        fixed_ops = [("validate", UNIQ_ANNS[0], False), ("prefix", "sc"), ("validate", UNIQ_ANNS[0], False),
+                     ("validate", UNIQ_ANNS[0], True), ("prefix", ""), ("validate", UNIQ_ANNS[1], False)]
+        rep_tasks.append((pth, sk, fixed_ops))
+        rep_tasks.append((pth, sk, [("prefix", "sc:")] + fixed_ops))
+        for _ in range(12 if thorough else 2):
+            rep_tasks.append((pth, sk, gen_reprefix_ops(rng, rng.randint(4, 9))))
+
     ent_want = set(range(len(configs))) if (thorough or wide) else {0, 1}
     cfg_tasks = [(vl, bt[1], rt[1], gt[1], ci in ent_want)
                  for ci, ((vl, _), bt, rt, gt) in enumerate(zip(configs, bad_tasks, res_tasks, grp_tasks))]
@@ -773,6 +1005,12 @@ def _run(rng, thorough, wide, res, model_ok, scratch):
             idx[("grp", ci)] = len(main_lines)
             main_lines += ["(grp C%d (%s))" % (ci, " ".join(sx_s(t) for t in l)) for l in lists]
 
+        for ri, (vlA, vlB, tt) in enumerate(reid_tasks):
+            main_lines.append("(load %d XA%d (%s))" % (FIXED, ri, " ".join(sx_s(v) for v in model_vlist(vlA))))
+            main_lines.append("(load %d XB%d (%s))" % (FIXED, ri, " ".join(sx_s(v) for v in model_vlist(vlB))))
+            idx[("reid", ri)] = len(main_lines)
+            main_lines += ["(reid XA%d XB%d %s)" % (ri, ri, sx_s(t)) for t in tt]
+
         def run_model():
             try:
                 drv["out"] = C.run_driver(exe, main_lines, shards=1, timeout=3000)
@@ -785,6 +1023,9 @@ def _run(rng, thorough, wide, res, model_ok, scratch):
         r_cfg = pool.map_async(g_config, cfg_tasks, chunksize=1)
         r_part = pool.map_async(g_partner, partner_tasks, chunksize=1)
         r_unm = pool.map_async(g_unmerged, [l for _, l in unm_pairs], chunksize=1)
+        r_cross = pool.map_async(g_cross, cross_tasks, chunksize=1)
+        r_rep = pool.map_async(g_reprefix, rep_tasks, chunksize=1)
+        r_reid = pool.map_async(g_reid, reid_tasks, chunksize=1)
         r_load = pool.map_async(t_load, loads, chunksize=2)
         r_ent = pool.map_async(g_entries, ent_extra, chunksize=1)
         r_pieces = pool.map_async(t_pieces, [piece_texts[i::16] for i in range(16)], chunksize=1)
@@ -798,6 +1039,9 @@ def _run(rng, thorough, wide, res, model_ok, scratch):
         loadr = r_load.get()
         partr = r_part.get()
         unmr = r_unm.get()
+        crossr = r_cross.get()
+        repr_ = r_rep.get()
+        reidr = r_reid.get()
         entx = r_ent.get()
 
     def failed(x):
@@ -850,6 +1094,43 @@ def _run(rng, thorough, wide, res, model_ok, scratch):
                 res.report("bad-prefix-is-error", {"kind": "badprefix", "vlist": vlist, "text": text, "prefix": badp},
                            f"verdict={g}")
     samples.append(bad_cases[0][1][0][1])
+
+    # histories: the verdict is a function of the CURRENT configuration and the text, whatever happened before
+    for (vlA, vlB, texts), outs in zip(cross_tasks, crossr):
+        if failed(outs):
+            res.report("configuration-loads", {"kind": "load", "vlist": vlA, "other": vlB}, outs["fail"])
+            continue
+        for t, (cross, fresh, pre, emul, f6able) in zip(texts, outs):
+            evaluations += 1
+            H["history:cross"] = H.get("history:cross", 0) + 1
+            if cross != fresh:
+                fid = None
+                if vlA != vlB and not FIXED5:
+                    if pre == fresh:
+                        fid = "C13-F5"
+                    elif emul == pre:
+                        fid = "C13-F6"
+                elif vlA != vlB and f6able:
+                    fid = "C13-F6"      # with fix-F5 the single re-identification happens first: recognised by its cause
+                res.report("built-under-A-judged-under-B-equals-fresh",
+                           {"kind": "cross", "built_under": vlA, "judged_under": vlB, "text": t},
+                           f"A-built={cross} fresh={fresh} A-built-after-reidentification={pre} documented-reidentification={emul}", fid=fid)
+            if cross:
+                nontrivial.add((tuple(vlA), tuple(vlB), t))
+    for (pth, sk, ops), outs in zip(rep_tasks, repr_):
+        if failed(outs):
+            res.report("configuration-loads", {"kind": "reprefix", "file": os.path.basename(pth), "ops": ops}, outs["fail"])
+            continue
+        for k, o in enumerate(outs):
+            if o[0] != "validate":
+                continue
+            evaluations += 1
+            H["history:reprefix"] = H.get("history:reprefix", 0) + 1
+            if o[3] != o[4]:
+                res.report("reprefixed-schema-equals-freshly-loaded",
+                           {"kind": "reprefix", "file": os.path.basename(pth), "std": sk, "ops": ops[:ops_index(outs, k) + 1]},
+                           f"step {k} namespace={o[1]!r} text={o[2]!r}: re-prefixed object={o[3]} freshly loaded={o[4]}")
+    samples.append(cross_tasks[0][2][-1])
 
     # clause 4: partnered library contains every standard tag unchanged, plus its own (all tags; testing)
     for (b, l, _, _), pr in zip(partner_tasks, partr):
@@ -1042,6 +1323,21 @@ def _run(rng, thorough, wide, res, model_ok, scratch):
             if me != ie:
                 diff = ([x for x in me if x not in set(ie)][:2] + [x for x in ie if x not in set(me)][:2]) if m[0] == "ok" else m
                 corr_violation("partner merge (unmerged file)", {"lib": l}, f"first differences: {diff}")
+        for ri, ((vlA, vlB, tt), outs) in enumerate(zip(reid_tasks, reidr)):
+            if failed(outs):
+                continue
+            base = idx[("reid", ri)]
+            for k, (t, o) in enumerate(zip(tt, outs)):
+                corr += 1
+                m = out[base + k]
+                if isinstance(o, dict):
+                    corr_violation("re-identification", {"built_under": vlA, "judged_under": vlB, "text": t}, o["exn"])
+                    continue
+                mm = [un(m[0][1]) if m[0][0] == "1" else None, un(m[1]), sorted(KIND2CODE.get(x, x) for x in m[2]), un(m[3])]
+                if mm != o:
+                    corr_violation("re-identification", {"built_under": vlA, "judged_under": vlB, "text": t},
+                                   f"impl={o} model={mm}")
+        H["corr:reidentify"] = sum(len(t[2]) for t in reid_tasks)
         H["corr:pieces"] = len(piece_texts)
         H["corr:resolve"] = sum(len(t) for _, t in res_tasks)
         H["corr:loads"] = len(loads)
@@ -1100,6 +1396,32 @@ def replay(payload):
             bad = not any(sv == 1 for _, sv in g)
             print("FAILS" if bad else "ok")
             return 1 if bad else 0
+        if kind == "cross":
+            cross, fresh, pre, emul, f6able = t_cross((case["built_under"], case["judged_under"], [case["text"]]))[0]
+            print("built under", case["built_under"], "judged under", case["judged_under"], ":", case["text"])
+            print("  object built under A :", cross)
+            print("  freshly built object :", fresh)
+            if cross != fresh:
+                print("FAILS: verdicts differ (after re-identification first: %s; documented re-identification: %s; "
+                      "C13-F6 cause present: %s)" % (pre, emul, f6able))
+                return 1
+            return 0
+        if kind == "reprefix":
+            pth = os.path.join(cache, case["file"])
+            if not os.path.exists(pth):
+                pth = make_required_schema(cache, scratch)
+
+            def fix(items):
+                return [(k, fix(x)) if k == "G" else (k, x) for k, x in items]
+            ops = [("prefix", o[1]) if o[0] == "prefix" else ("validate", fix(o[1]), o[2]) for o in case["ops"]]
+            outs = t_reprefix((pth, case["std"], ops))
+            rc = 0
+            for o in outs:
+                print(o)
+                if o[0] == "validate" and o[3] != o[4]:
+                    print("FAILS: re-prefixed object and freshly loaded schema disagree")
+                    rc = 1
+            return rc
         if kind == "load":
             r = t_load(case["vlist"])
             print("load_schema_version", case["vlist"], "->", r[:2])
